@@ -111,6 +111,13 @@ private:
     {
       carrier.Set(kTraceState, trace_state);
     }
+    else if (!carrier.Get(kTraceState).empty())
+    {
+      // A reused carrier still holds the tracestate of another context. An empty trace state is
+      // normally not sent at all, but a carrier cannot erase a header: overwrite the stale value
+      // with the empty list, so that it does not travel with this traceparent.
+      carrier.Set(kTraceState, "");
+    }
   }
 
   static SpanContext ExtractContextFromTraceHeaders(nostd::string_view trace_parent,
